@@ -33,6 +33,13 @@ func (a *AuditLogIngester) Ingest(ctx context.Context) error {
 }
 
 func (a *AuditLogIngester) Process(ctx context.Context, line string) error {
-	a.AuditLogChan <- line
-	return nil
+	// Do not block forever when the channel is full and its consumer has
+	// stopped (e.g., because the audit processor failed): that would keep
+	// this worker - and with it the whole errgroup - from ever exiting.
+	select {
+	case a.AuditLogChan <- line:
+		return nil
+	case <-ctx.Done():
+		return ctx.Err()
+	}
 }
